@@ -43,17 +43,17 @@ def run(tier, seed, jobs):
     else:
         configs = []
         for ms in (1, 2, None, 0):
-            configs.append({"mod": MOD, "cls": "CacheModel", "max_depth": 7, "max_states": 6000,
+            configs.append({"mod": MOD, "cls": "CacheModel", "max_depth": 7, "max_states": 2500,
                             "opts": o if ms in (1, 2) else {"pairs": False},
                             "params": dict(n=3, keys=["a", "b", "c"] if ms == 2 else ["a", "b"],
                                            maxsize=ms, max_inflight=3 if ms != 2 else 2,
                                            max_calls=6 if ms != 2 else 5)})
         configs.append({"mod": MOD, "cls": "CacheModel", "opts": o, "max_depth": 6,
-                        "max_states": 4000,
+                        "max_states": 2000,
                         "params": dict(n=3, keys=[1, 1.0], maxsize=2, typed=True, max_inflight=2,
                                        max_calls=5)})
         configs.append({"mod": MOD, "cls": "CacheModel", "opts": {"pairs": False}, "max_depth": 8,
-                        "max_states": 6000,
+                        "max_states": 2500,
                         "params": dict(n=2, keys=["a", "b"], maxsize=2, ttl=5, max_inflight=2,
                                        max_calls=5, always_checkpoint=True)})
         # (functools.lru_cache(typed=False) keeps 1 and 1.0 apart through an int fast path, an
